@@ -219,6 +219,9 @@ structure St where
   /-- oracle: every digest the node itself has sent so far (in its `ChallengeReply` / `ChallengeAck`
   frames, any session): presenting one of these proves nothing about knowing the cookie -/
   emitted : List String := []
+  /-- oracle (wave 2): the digests the node sent on sessions whose peer had NOT proved the cookie by
+  then — what a cookie-less end point can have seen (`Multi.advView`) -/
+  emittedAdv : List String := []
 
 def St.get? (s : St) (k : Nat) : Option Ses := (s.sessions.find? (·.1 == k)).map (·.2)
 def St.set (s : St) (k : Nat) (v : Ses) : St :=
@@ -619,7 +622,17 @@ def step (st : St) (op0 impl : String) : St × StepOut :=
             (s.st.name.map (·.1)) == some n.name)
           if !ses.st.stopped && !o.alive && !rivalN then ["connection-refused-without-authenticated-rival"] else []
         | _, _, _ => []
-      let orc := orc1 ++ orcV ++ orcN ++ violationOracle ses fr impl ++ enumOracle ((st.set (k.toNat?.getD 0) sesO).sessions) impl
+      -- wave 2 (C17.inbound_only_adversary_is_never_authenticated, checked on the real node): while every
+      -- session whose peer has not proved the cookie is INBOUND, the node has disclosed no digest to such
+      -- a peer, so none of them can get in with a copied digest — this is NOT the known finding F11
+      let presentedDg : Option String := match fr with
+        | .auth (.clientChallenge _ dg) => some dg
+        | .auth (.serverAck dg) => some dg
+        | _ => none
+      let orcI := if sesO.oRelayed && !ses.oRelayed && (presentedDg.map st.emittedAdv.contains).getD false &&
+          st.sessions.all (fun (_, s) => s.cfg.isServer || s.oGood) then
+        ["reflected-digest-accepted-with-inbound-sessions-only"] else []
+      let orc := orc1 ++ orcV ++ orcN ++ orcI ++ violationOracle ses fr impl ++ enumOracle ((st.set (k.toNat?.getD 0) sesO).sessions) impl
       let nt := eff.any (·.gated) || s'.stopped
       -- dials of the advertised loopback listener (other addresses are not dialable and not observed)
       let nc := (eff.filter (fun e => match e with | .connect a => a.startsWith "127.0.0.1:" | _ => false)).length
@@ -636,6 +649,7 @@ def step (st : St) (op0 impl : String) : St × StepOut :=
           else 0
         | _ => 0
       ({ stO with connects := st.connects + nc, emitted := st.emitted ++ implDigests impl,
+                  emittedAdv := st.emittedAdv ++ (if sesO.oGood then [] else implDigests impl),
                   oAllowedDials := st.oAllowedDials + allowed },
        { model := showObs ses' eff impl, oracle := orc, nontrivial := nt })
     | _, _ => (st, { model := "bad-op" })
